@@ -27,9 +27,9 @@ def modAt {γ : Type} (l : List γ) (k : Nat) (f : γ → γ) : List γ :=
 def findKey [DecidableEq κ] (gs : List (κ × Subj α)) (k : κ) : Option Nat :=
   gs.findIdx? (fun p => p.1 == k)
 
-/-- the teardown (381-386), which runs inside `destination.Error/Complete` because the downstream
+/-- the teardown (382-387), which runs inside `destination.Error/Complete` because the downstream
     closes there: every group is completed (`notifyAll(Complete)`), the map is reset; so the
-    `notifyAll` that follows in the error / complete callback (366-377) ranges over an empty map. -/
+    `notifyAll` that follows in the complete callback (373-378) ranges over an empty map. -/
 def groupCloseAll (gs : List (κ × Subj α)) : List (κ × Subj α) × List (Ev α) :=
   (gs.map (fun p => (p.1, p.2.complete.1)), gs.flatMap (fun p => p.2.complete.2))
 
@@ -48,9 +48,13 @@ def groupByStep [DecidableEq κ] (key : α → Nat → κ) (delay : Nat) (s : Gr
         { st := { s with idx := s.idx + 1, groups := s.groups ++ [(k, subj.subscribe)] }, emits := [.next id] }
       else
         { st := { s with idx := s.idx + 1, groups := s.groups ++ [(k, subj)], pending := s.pending ++ [(id, delay)] }, emits := [.next id] }
-  | .error e =>                                                    -- 366-371
-    let r := groupCloseAll s.groups
-    { st := { s with groups := r.1, mapped := false }, emits := [.error e], sdrops := r.2 }
+  | .error e =>                                                    -- 366-372
+    -- the groups first (notifyAll(Error)), then destination.Error, whose teardown completes the
+    -- (already failed) groups — every one of those completions is refused — and resets the map
+    let failed := s.groups.map (fun p => (p.1, (p.2.error e).1))
+    let r := groupCloseAll failed
+    { st := { s with groups := r.1, mapped := false }, emits := [.error e],
+      sdrops := s.groups.flatMap (fun p => (p.2.error e).2) ++ r.2 }
   | .complete =>                                                   -- 372-377
     let r := groupCloseAll s.groups
     { st := { s with groups := r.1, mapped := false }, emits := [.complete], sdrops := r.2 }
